@@ -190,7 +190,7 @@ class _W:
     pass
 
 
-def run_cases(cases, tag, nworkers=None, watchdog=10.0, mem=3 << 30, retry_slow=True):
+def run_cases(cases, tag, nworkers=None, watchdog=10.0, mem=3 << 30, retry_slow=True, cwd=None):
     """Execute cases (dicts) on worker processes; returns results aligned with cases.
     A hang (no result within `watchdog` seconds) yields outcome 'timeout', a dead worker
     outcome 'crash'.  Slow cases are re-run once alone with a 6x budget before they count."""
@@ -227,7 +227,7 @@ def run_cases(cases, tag, nworkers=None, watchdog=10.0, mem=3 << 30, retry_slow=
     def start(w):
         w.proc = subprocess.Popen([WORKER, w.inp, w.out, str(w.done)], preexec_fn=_limits(mem),
                                   stdin=subprocess.DEVNULL, stdout=subprocess.DEVNULL,
-                                  stderr=subprocess.DEVNULL)
+                                  stderr=subprocess.DEVNULL, cwd=cwd)
         w.last = time.time()
 
     def poll_lines(w):
@@ -296,7 +296,7 @@ def run_cases(cases, tag, nworkers=None, watchdog=10.0, mem=3 << 30, retry_slow=
         slow = [i for i, r in enumerate(results) if r.get("outcome") in ("timeout", "crash", "lost")]
         for i in slow[:40]:
             rr = run_cases([cases[i]], tag + "-retry", nworkers=1, watchdog=watchdog * 6, mem=mem * 2,
-                           retry_slow=False)
+                           retry_slow=False, cwd=cwd)
             results[i] = rr[0]
             results[i]["retried"] = True
     return results
